@@ -126,6 +126,14 @@ class Helper:
         self.single_expr = (len(self.body) == 1 and
                             isinstance(self.body[0], ast.Return) and
                             self.body[0].value is not None)
+        # closed: refers to nothing but its parameters, its locals and
+        # builtins - it means the same in any module
+        import builtins as _b
+        bound = set(self.params) | set(self.kwonly) | self.assigned
+        self.free = {n.id for n in _own_walk(node)
+                     if isinstance(n, ast.Name) and n.id not in bound and
+                     not hasattr(_b, n.id)}
+        self.closed = not self.free
 
 
 def _dec(d):
@@ -339,11 +347,43 @@ class Normaliser:
                     return r
         return None
 
+    def _imports(self, mname):
+        """local name -> (source module, original name) for the names a
+        module imports at top level."""
+        cache = self.__dict__.setdefault('_import_cache', {})
+        if mname not in cache:
+            d = {}
+            for st in self.trees[mname].body:
+                if isinstance(st, ast.ImportFrom):
+                    for a in st.names:
+                        d[a.asname or a.name] = ((st.module or ''), a.name,
+                                                 st.level)
+                elif isinstance(st, ast.Import):
+                    for a in st.names:
+                        d[a.asname or a.name.split('.')[0]] = (a.name, None,
+                                                               0)
+            cache[mname] = d
+        return cache[mname]
+
+    def _same_names(self, h, mname):
+        """Every global name the helper refers to means the same in module
+        `mname`: both modules import it from the same place under the same
+        name."""
+        a, b = self._imports(h.module), self._imports(mname)
+        return all(n in a and a.get(n) == b.get(n) for n in h.free)
+
     def _match(self, call):
         f = call.func
         if isinstance(f, ast.Name):
             hs = [h for h in self.by_name.get(f.id, ())
                   if h.cls is None and h.module == self._cur_mod]
+            if not hs:
+                # a helper of another h2 module imported by name
+                imp = self._imports(self._cur_mod).get(f.id)
+                if imp is not None and imp[2] == 1 and imp[1] is not None:
+                    hs = [h for h in self.by_name.get(imp[1], ())
+                          if h.cls is None and h.module == imp[0] and
+                          self._same_names(h, self._cur_mod)]
             return hs[0] if len(hs) == 1 and hs[0].ok else None
         if isinstance(f, ast.Attribute):
             hs = [h for h in self.by_name.get(f.attr, ())
@@ -351,7 +391,8 @@ class Normaliser:
             if len(hs) != 1 or not hs[0].ok:
                 return None
             h = hs[0]
-            if h.module != self._cur_mod:
+            if h.module != self._cur_mod and not self._same_names(
+                    h, self._cur_mod):
                 return None
             if isinstance(f.value, ast.Name) and f.value.id == 'super':
                 return None
@@ -627,6 +668,10 @@ def _literal_seq(fnode, it):
                     'append', 'extend', 'insert', 'pop', 'remove', 'sort',
                     'reverse', 'clear'):
             return None
+    if not binds and it.id not in [a.arg for a in fnode.args.args] and \
+            _MODULE_SEQS is not None:
+        # a module-level tuple assigned once and never touched again
+        return _MODULE_SEQS.get((getattr(fnode, '_file', None), it.id))
     if len(binds) != 1 or it.id in [a.arg for a in fnode.args.args]:
         return None
     for n in _own_walk(fnode):
@@ -702,8 +747,39 @@ class _AnyAll(ast.NodeTransformer):
         return ast.copy_location(ast.BoolOp(op=op, values=vals), node)
 
 
+_MODULE_SEQS = None
+
+
+def _module_seqs(trees):
+    """(file, name) -> the literal tuple a module-level name is bound to,
+    for names bound exactly once in the module and never mutated or rebound
+    anywhere in it."""
+    out = {}
+    for tree in trees.values():
+        f = getattr(tree, '_file', None)
+        if f is None and tree.body:
+            f = getattr(tree.body[0], '_file', None)
+        stores = {}
+        for n in ast.walk(tree):
+            if isinstance(n, ast.Name) and isinstance(n.ctx, (ast.Store,
+                                                               ast.Del)):
+                stores[n.id] = stores.get(n.id, 0) + 1
+            elif isinstance(n, ast.Global):
+                for x in n.names:
+                    stores[x] = stores.get(x, 0) + 2
+        for st in tree.body:
+            if isinstance(st, ast.Assign) and len(st.targets) == 1 and \
+                    isinstance(st.targets[0], ast.Name) and \
+                    isinstance(st.value, ast.Tuple) and \
+                    stores.get(st.targets[0].id) == 1:
+                out[(f, st.targets[0].id)] = st.value
+    return out
+
+
 def unroll_callable_loops(trees):
+    global _MODULE_SEQS
     n_unrolled = 0
+    _MODULE_SEQS = _module_seqs(trees)
     for tree in trees.values():
         _AnyAll().visit(tree)
         ast.fix_missing_locations(tree)
@@ -771,7 +847,9 @@ def _unroll(fnode, loop):
             rows.append(list(e.elts))
     for st in loop.body:
         for n in ast.walk(st):
-            if isinstance(n, (ast.Break, ast.Continue, ast.Return,
+            # (a return leaves the function from the unrolled copy exactly
+            # as it did from the loop)
+            if isinstance(n, (ast.Break, ast.Continue,
                               ast.Yield, ast.YieldFrom)):
                 return None
             if isinstance(n, ast.Name) and n.id in tvars and \
@@ -997,7 +1075,15 @@ def map_back(trees):
                        (getattr(n, 'id', None) == kname or
                         getattr(n, 'attr', None) == kname)
                        for t in trees.values() for n in ast.walk(t)):
-                    continue        # the old name is used for something
+                    # the old name is used for something else: the function
+                    # keeps its new name in the trees and is only indexed
+                    # under its pinned qualified name
+                    if fp[q] == pk['fp']:
+                        al.renamed.append((k, node.name))
+                        al.moved[q] = k
+                        done = True
+                        break
+                    continue
                 al.renamed.append((k, node.name))
                 _rename_everywhere(trees, node.name, kname)
             newq = '%s.%s.%s' % (mname, cls, kname) if cls else \
@@ -1027,6 +1113,83 @@ def map_back(trees):
                                 n.attr == new[0]:
                             n.attr = gone[0]
     return al
+
+
+def demote_changed(trees, al, keep_whole=frozenset()):
+    """A non-public function of the pinned tree that kept its name but now
+    takes another number of arguments is no longer the function the rules
+    know.  It is renamed (definition and calls) so that it is treated like
+    any helper the pinned tree does not have: inlined into its callers,
+    where the second outlining pass can recognise the pinned body and put
+    the pinned function back."""
+    pinned = load_pinned()
+    cur = function_table(trees)
+    out = []
+    missing_by_name = {}
+    for k0 in pinned['functions']:
+        if k0 not in cur and k0 not in al.moved.values() and \
+                not k0.endswith('.setter'):
+            missing_by_name.setdefault(k0.split('.')[-1], []).append(k0)
+    for q in sorted(cur):
+        node, mname, cls = cur[q]
+        k = al.moved.get(q, q)
+        pk = pinned['functions'].get(k)
+        if pk is None and len(missing_by_name.get(node.name, ())) == 1:
+            # a method made a module-level function (or the reverse) under
+            # the same name
+            k = missing_by_name[node.name][0]
+            pk = pinned['functions'][k]
+        if pk is None or pk.get('nargs') is None or k in keep_whole or \
+                not node.name.startswith('_') or node.name.startswith('__') \
+                or q.endswith('.setter') or node.decorator_list:
+            continue
+        a = node.args
+        own = len(a.args) - (1 if cls and a.args and
+                             a.args[0].arg in ('self', 'cls') else 0)
+        pin = pk['nargs'] - (1 if pk.get('cls') else 0)
+        if a.vararg or a.kwarg or own == pin:
+            continue
+        old = node.name
+        new = old + '__resigned'
+        tree = trees[mname]
+        if cls:
+            cnode = next((s for s in tree.body if isinstance(s, ast.ClassDef)
+                          and s.name == cls), None)
+            if cnode is None:
+                continue
+            # uses other than self.<old>(...) inside the class: leave alone
+            uses = [n for t in trees.values() for n in ast.walk(t)
+                    if isinstance(n, ast.Attribute) and n.attr == old]
+            inside = {id(n) for n in ast.walk(cnode)
+                      if isinstance(n, ast.Attribute) and n.attr == old and
+                      isinstance(n.value, ast.Name) and n.value.id == 'self'}
+            same_name_elsewhere = any(
+                c2 != cls and n2.name == old
+                for (n2, m2, c2) in cur.values())
+            if same_name_elsewhere:
+                # another class has a method of this name: only the calls
+                # through `self` inside this class are certainly ours
+                outside = [n for n in uses if id(n) not in inside]
+                # calls on other receivers stay as they are
+            else:
+                outside = [n for n in uses if id(n) not in inside]
+                if outside:
+                    continue
+            node.name = new
+            for n in ast.walk(cnode):
+                if id(n) in inside:
+                    n.attr = new
+        else:
+            imported = any(isinstance(n, ast.alias) and n.name == old
+                           for t in trees.values() for n in ast.walk(t))
+            if imported:
+                continue
+            node.name = new
+            for n in ast.walk(tree):
+                if isinstance(n, ast.Name) and n.id == old:
+                    n.id = new
+        out.append(k)
+    return out
 
 
 def canon_params(trees, al):
